@@ -27,9 +27,19 @@ RULES = {
     "R-LIMIT": iterator.r_alloc,
     "L-ADVANCE": iterator.r_advance,
     "R-RECOVER": iterator.r_recover,
+    "R-TOL": iterator.r_tol,
+    "R-TOL-DEFAULT": iterator.r_tol_default,
 }
 
 PROPERTIES = {
+    "C13": {
+        "rules": ["R-TOL", "R-TOL-DEFAULT"],
+        "level": "other",
+        "explanation": "Abstract interpretation of header validation for each of the 8 tolerance masks (bit values themselves derived by abstract "
+                       "evaluation of allow_errors): which corruption kinds are constructible per mask, that the size limit and data checks never depend "
+                       "on a mask, that strict mode accepts no untyped header; plus who-may-write for the settings and their constructor defaults.  "
+                       "'Strict items are a prefix of tolerant items' is not decided.",
+    },
     "C11": {
         "rules": ["R-SHARED-MATCHER", "R-WRITER-VALIDATES"],
         "level": "other",
